@@ -7,6 +7,9 @@ The complete file must load and equal the saved sketch.  Each subject is also
 run in a second history: save() onto a path that already holds a LONGER file
 written by save() (a re-used file name) - the result is still "a file written by
 save()", all of its prefixes must fail and it must load to the second sketch.
+The truncated bytes are presented IN PLACE (at the very path that was loaded
+successfully a moment ago) and, on a stride, under a name without the .npz
+suffix next to the complete file of the same stem.
 """
 import os
 import shutil
@@ -116,33 +119,47 @@ def run(rep):
                     if diff:
                         rep.violation(case, f"{name}: complete file loads to a different sketch ({diff})")
                     del got
-            part = os.path.join(d, f"{name}-cut.npz")
+            # the truncated file appears (1) IN PLACE: at the very path that was just loaded
+            # successfully (a crash while rewriting it) and, on a stride, (2) under a name
+            # without the .npz suffix next to the complete file with the same stem
+            sibling = os.path.join(d, f"{name}.part")
             bad = 0
             for cut in range(n):
-                with open(part, "wb") as f:
-                    f.write(blob[:cut])
-                for lname, loader in _loaders(kind):
-                    # shared-memory loads on a stride (each may create a segment)
-                    for shared in (False, True) if cut % 16 == 0 else (False,):
-                        r = _try_load(loader, part, shared)
-                        rep.evals()
-                        total += 1
-                        if r is not None:
-                            bad += 1
-                            rep.violation(
-                                {
-                                    "kind": "prefix",
-                                    "subject": name,
-                                    "loader": lname,
-                                    "shared": shared,
-                                    "cut": cut,
-                                    "kind_": kind,
-                                    "args": list(args),
-                                },
-                                f"{name}: {lname} loader returned a {r} from the first "
-                                f"{cut} of {n} bytes",
-                            )
+                where = [full] if cut % 7 else [full, sibling]
+                for part in where:
+                    with open(part, "wb") as f:
+                        f.write(blob[:cut])
+                    if part is sibling:
+                        with open(full, "wb") as f:  # the complete file sits next to it
+                            f.write(blob)
+                    for lname, loader in _loaders(kind):
+                        # shared-memory loads on a stride (each may create a segment)
+                        for shared in (False, True) if cut % 16 == 0 else (False,):
+                            r = _try_load(loader, part, shared)
+                            rep.evals()
+                            total += 1
+                            if r is not None:
+                                bad += 1
+                                rep.violation(
+                                    {
+                                        "kind": "prefix",
+                                        "subject": name,
+                                        "loader": lname,
+                                        "shared": shared,
+                                        "cut": cut,
+                                        "kind_": kind,
+                                        "args": list(args),
+                                        "where": "sibling" if part is sibling else "inplace",
+                                    },
+                                    f"{name}: {lname} loader returned a {r} from the first "
+                                    f"{cut} of {n} bytes ("
+                                    + ("file named *.part next to the complete *.npz"
+                                       if part is sibling else "truncated in place after a successful load")
+                                    + ")",
+                                )
                 rep.nontrivial((name, cut))
+            with open(full, "wb") as f:
+                f.write(blob)
             rep.part(name, kind=kind, args=list(args), file_bytes=n, prefixes=n, loaded=bad)
             rep.sample({"subject": name, "kind": kind, "file_bytes": n, "cut": n // 2})
     finally:
@@ -175,7 +192,15 @@ def replay(case):
             diff = SK.persist_diff(sk, got)
             return bool(diff), {"differs_in": diff}
         blob = open(full, "rb").read()
-        part = os.path.join(d, "cut.npz")
+        for ln, ld in _loaders(kind):  # the complete file is loaded first, as in the check
+            try:
+                ld(full)
+            except Exception:
+                pass
+        if case.get("where") == "sibling":
+            part = os.path.join(d, "f.part")
+        else:
+            part = full
         with open(part, "wb") as f:
             f.write(blob[: case["cut"]])
         r = _try_load(loader, part, case["shared"])
